@@ -86,8 +86,11 @@ def main() -> int:
             if os.path.realpath(src) != os.path.realpath(dst):
                 shutil.copy(patch, os.path.join(dst, "patch.diff"))
                 shutil.copy(demo, os.path.join(dst, "demo.py"))
-                if os.path.exists(os.path.join(src, "notes.md")):
-                    shutil.copy(os.path.join(src, "notes.md"), os.path.join(dst, "notes.md"))
+                # notes and whatever helper files the demonstration needs next to it
+                for fn in os.listdir(src):
+                    fp = os.path.join(src, fn)
+                    if fn not in ("patch.diff", "demo.py") and os.path.isfile(fp) and os.path.getsize(fp) < 200000 and not fn.endswith((".pyc", ".log")):
+                        shutil.copy(fp, os.path.join(dst, fn))
             old = {}
             mp = os.path.join(dst, "meta.json")
             if os.path.exists(mp):
